@@ -3,7 +3,7 @@
    shape of the pinned tree loses updates (regression section); the theorems instantiated with the
    shapes atomics2v translated from the current c2/state.go (Gen/StateAtomics.v). *)
 From Coq Require Import Permutation.
-From XMT Require Import Base.Prelude Base.BitLemmas Model.State Model.Interleave Proofs.State.
+From XMT Require Import Base.Prelude Base.BitLemmas Model.State Model.Interleave Proofs.State Gen.StateAtomics.
 
 (* ---- lists ------------------------------------------------------------------- *)
 Lemma set_nth_length {A} (l : list A) i x : length (set_nth l i x) = length l.
@@ -240,3 +240,428 @@ Section NoLostUpdate.
   Qed.
 End NoLostUpdate.
 
+
+(* ---- complete schedules exist ------------------------------------------------------ *)
+(* two scheduling slots return a linearisable call when nothing intervenes: load, then a
+   compare-and-swap that finds the word it loaded *)
+Lemma two_steps_finish c w :
+  linearisable (fst c) = true ->
+  finished (snd (thread_step (fst (thread_step w (thread_of c))) (snd (thread_step w (thread_of c))))) = true.
+Proof.
+  intros L. destruct (linearisable_ops _ L) as [Hs Ho].
+  unfold thread_of, instantiate.
+  destruct (m_shape (fst c)); try congruence;
+    destruct Ho as [[e ->]|[[e ->]|[e ->]]]; unfold thread_step; cbn [map code pc reg nth_error step_of fst snd];
+    rewrite ?Z.eqb_refl; reflexivity.
+Qed.
+
+Lemma set_nth_app {A} (l1 : list A) x y l2 : set_nth (l1 ++ x :: l2) (length l1) y = l1 ++ y :: l2.
+Proof. induction l1 as [|z l1 IH]; cbn [app length set_nth]; [reflexivity|rewrite IH; reflexivity]. Qed.
+
+Lemma nth_error_app_mid {A} (l1 : list A) x l2 : nth_error (l1 ++ x :: l2) (length l1) = Some x.
+Proof. induction l1 as [|z l1 IH]; cbn [app length nth_error]; auto. Qed.
+
+Lemma sched_step_mid w done t rest :
+  sched_step (w, done ++ t :: rest) (length done) =
+  (fst (thread_step w t), done ++ snd (thread_step w t) :: rest).
+Proof.
+  unfold sched_step. cbn [fst snd]. rewrite nth_error_app_mid.
+  destruct (thread_step w t) as [w' t']. rewrite set_nth_app. reflexivity.
+Qed.
+
+Lemma serial_completes_from rest :
+  Forall (fun c => linearisable (fst c) = true) rest ->
+  forall done w, forallb finished done = true ->
+    all_done (run_sched (w, done ++ map thread_of rest)
+                        (flat_map (fun i => [i; i]) (seq (length done) (length rest)))) = true.
+Proof.
+  induction rest as [|c rest IH]; intros HF done w Hd.
+  - cbn. unfold all_done. cbn [snd]. rewrite app_nil_r. exact Hd.
+  - inversion HF as [|? ? Lc HF']; subst.
+    cbn [length seq flat_map map]. unfold run_sched. rewrite fold_left_app. fold (run_sched).
+    cbn [app fold_left]. rewrite !sched_step_mid.
+    pose proof (two_steps_finish c w Lc) as F.
+    destruct (thread_step w (thread_of c)) as [w1 t1]. cbn [fst snd] in *.
+    destruct (thread_step w1 t1) as [w2 t2]. cbn [fst snd] in *.
+    replace (done ++ t2 :: map thread_of rest) with ((done ++ [t2]) ++ map thread_of rest)
+      by (rewrite <- app_assoc; reflexivity).
+    replace (S (length done)) with (length (done ++ [t2])) by (rewrite app_length; cbn; lia).
+    apply (IH HF'). rewrite forallb_app, Hd. cbn. rewrite F. reflexivity.
+Qed.
+
+(* every list of linearisable calls has a complete schedule (so the theorem above is about
+   something): every thread in turn, two slots each *)
+Theorem serial_completes cs w0 :
+  Forall (fun c => linearisable (fst c) = true) cs ->
+  all_done (run_sched (init w0 cs) (serial_sched (length cs))) = true.
+Proof. intros H. exact (serial_completes_from cs H [] w0 eq_refl). Qed.
+
+(* ---- the three mutators of the state word ------------------------------------------ *)
+(* facts about the calls applied in one piece, in any order *)
+Lemma mcall_last c w : arg_in_half c ->
+  st_last (mcall_fn c w) = match c with MSetLast g => g | _ => st_last w end.
+Proof.
+  destruct c as [v|v|g]; cbn [mcall_fn arg_in_half]; intros H.
+  - apply set_keeps_group. exact H.
+  - apply unset_keeps_group. exact H.
+  - apply setlast_sets. exact H.
+Qed.
+
+Lemma mcall_flags c w w' : st_flags w = st_flags w' -> st_flags (mcall_fn c w) = st_flags (flag_fn c w').
+Proof.
+  destruct c as [v|v|g]; cbn [mcall_fn flag_fn]; intros H.
+  - rewrite !set_flags, H. reflexivity.
+  - rewrite !unset_flags, H. reflexivity.
+  - rewrite setlast_keeps_flags. exact H.
+Qed.
+
+Lemma mcall_bit c w k : 0 <= k < 16 ->
+  Z.testbit (mcall_fn c w) k = (Z.testbit w k || sets_bit k c) && negb (clears_bit k c).
+Proof.
+  intros Hk. destruct c as [v|v|g]; cbn [mcall_fn sets_bit clears_bit negb].
+  - rewrite set_spec, andb_true_r. reflexivity.
+  - rewrite unset_spec, orb_false_r. reflexivity.
+  - rewrite setlast_spec by lia. replace (k <? 16) with true by (symmetry; apply Z.ltb_lt; lia).
+    rewrite orb_false_r, andb_true_r. reflexivity.
+Qed.
+
+Section Orders.
+  Variable cs : list mcall.
+
+  Lemma apply_mcalls_cons i order w :
+    apply_mcalls cs (i :: order) w =
+    apply_mcalls cs order (match nth_error cs i with Some c => mcall_fn c w | None => w end).
+  Proof. reflexivity. Qed.
+
+  (* the group half after the calls = the argument of the last SetLast (the initial group if none) *)
+  Lemma apply_mcalls_last order : (forall c, In c cs -> arg_in_half c) ->
+    forall w, st_last (apply_mcalls cs order w) = last_group cs order (st_last w).
+  Proof.
+    intros Hh. induction order as [|i order IH]; intros w; [reflexivity|].
+    rewrite apply_mcalls_cons, IH. unfold last_group. cbn [fold_left].
+    destruct (nth_error cs i) as [c|] eqn:Hc; [|reflexivity].
+    rewrite (mcall_last c w (Hh _ (nth_error_In _ _ Hc))). destruct c; reflexivity.
+  Qed.
+
+  (* the flag half after the calls = the flag half after the flag calls alone *)
+  Lemma apply_mcalls_flags order :
+    forall w w', st_flags w = st_flags w' ->
+                 st_flags (apply_mcalls cs order w) = st_flags (apply_flag_calls cs order w').
+  Proof.
+    induction order as [|i order IH]; intros w w' H; [exact H|].
+    rewrite apply_mcalls_cons. unfold apply_flag_calls. cbn [fold_left]. apply IH.
+    destruct (nth_error cs i) as [c|]; [apply mcall_flags|]; exact H.
+  Qed.
+
+  Lemma last_group_no_setlast order g0 :
+    (forall c, In c cs -> is_flag_call c = true) -> last_group cs order g0 = g0.
+  Proof.
+    intros Hf. induction order as [|i order IH]; [reflexivity|].
+    unfold last_group in *. cbn [fold_left]. destruct (nth_error cs i) as [c|] eqn:Hc; [|exact IH].
+    specialize (Hf _ (nth_error_In _ _ Hc)). destruct c; try discriminate; exact IH.
+  Qed.
+
+  Lemma apply_flag_calls_no_flag_call order w :
+    (forall c, In c cs -> is_flag_call c = false) -> apply_flag_calls cs order w = w.
+  Proof.
+    intros Hf. induction order as [|i order IH]; [reflexivity|].
+    unfold apply_flag_calls in *. cbn [fold_left]. destruct (nth_error cs i) as [c|] eqn:Hc; [|exact IH].
+    specialize (Hf _ (nth_error_In _ _ Hc)). destruct c; try discriminate; exact IH.
+  Qed.
+
+  (* a flag that some call sets and no call clears is set after the calls, whatever the order *)
+  Lemma apply_mcalls_bit_set k order : 0 <= k < 16 ->
+    (forall c, In c cs -> clears_bit k c = false) ->
+    forall w, (Z.testbit w k = true \/ exists i c, In i order /\ nth_error cs i = Some c /\ sets_bit k c = true) ->
+              Z.testbit (apply_mcalls cs order w) k = true.
+  Proof.
+    intros Hk Hn. induction order as [|i order IH]; intros w H.
+    - destruct H as [H|(i & c & [] & _)]. exact H.
+    - rewrite apply_mcalls_cons. apply IH.
+      destruct (nth_error cs i) as [c|] eqn:Hc.
+      + rewrite mcall_bit by exact Hk. rewrite (Hn _ (nth_error_In _ _ Hc)). cbn [negb]. rewrite andb_true_r.
+        destruct H as [H|(j & c' & [<-|Hj] & Hc' & Hs)].
+        * left. rewrite H. reflexivity.
+        * left. rewrite Hc in Hc'. injection Hc' as <-. rewrite Hs. apply orb_true_r.
+        * right. exists j, c'. auto.
+      + destruct H as [H|(j & c' & [<-|Hj] & Hc' & Hs)]; [left; exact H|congruence|right; exists j, c'; auto].
+  Qed.
+
+  (* a flag that some call clears and no call sets is clear after the calls, whatever the order *)
+  Lemma apply_mcalls_bit_clear k order : 0 <= k < 16 ->
+    (forall c, In c cs -> sets_bit k c = false) ->
+    forall w, (Z.testbit w k = false \/ exists i c, In i order /\ nth_error cs i = Some c /\ clears_bit k c = true) ->
+              Z.testbit (apply_mcalls cs order w) k = false.
+  Proof.
+    intros Hk Hn. induction order as [|i order IH]; intros w H.
+    - destruct H as [H|(i & c & [] & _)]. exact H.
+    - rewrite apply_mcalls_cons. apply IH.
+      destruct (nth_error cs i) as [c|] eqn:Hc.
+      + rewrite mcall_bit by exact Hk. rewrite (Hn _ (nth_error_In _ _ Hc)). rewrite orb_false_r.
+        destruct H as [H|(j & c' & [<-|Hj] & Hc' & Hs)].
+        * left. rewrite H. reflexivity.
+        * left. rewrite Hc in Hc'. injection Hc' as <-. rewrite Hs. apply andb_false_r.
+        * right. exists j, c'. auto.
+      + destruct H as [H|(j & c' & [<-|Hj] & Hc' & Hs)]; [left; exact H|congruence|right; exists j, c'; auto].
+  Qed.
+
+  Lemma in_order_of_perm order c :
+    Permutation order (seq 0 (length cs)) -> In c cs -> exists i, In i order /\ nth_error cs i = Some c.
+  Proof.
+    intros P H. destruct (In_nth_error _ _ H) as [i Hi]. exists i. split; [|exact Hi].
+    apply (Permutation_in _ (Permutation_sym P)). apply in_seq.
+    assert (i < length cs)%nat by (apply nth_error_Some; congruence). lia.
+  Qed.
+End Orders.
+
+(* the concurrent theorems for any three linearisable mutators whose commit functions are
+   Set / Unset / SetLast of Model/State.v *)
+Section Mutators.
+  Variables mset munset msetlast : mutator.
+  Hypothesis Lset : linearisable mset = true.
+  Hypothesis Lunset : linearisable munset = true.
+  Hypothesis Lsetlast : linearisable msetlast = true.
+  Hypothesis Cset : forall w v, commit_fn mset v w = st_set w v.
+  Hypothesis Cunset : forall w v, commit_fn munset v w = st_unset w v.
+  Hypothesis Csetlast : forall w g, commit_fn msetlast g w = st_setlast w g.
+
+  Local Notation tc := (to_call mset munset msetlast).
+
+  Lemma to_call_linearisable cs : Forall (fun c => linearisable (fst c) = true) (map tc cs).
+  Proof.
+    apply Forall_forall. intros c H. apply in_map_iff in H. destruct H as [m [<- _]].
+    destruct m; assumption.
+  Qed.
+
+  Lemma commit_to_call m w : commit (tc m) w = mcall_fn m w.
+  Proof. destruct m; unfold commit; cbn [to_call fst snd mcall_fn]; auto. Qed.
+
+  Lemma apply_calls_to_call cs order : forall w, apply_calls (map tc cs) order w = apply_mcalls cs order w.
+  Proof.
+    induction order as [|i order IH]; intros w; [reflexivity|].
+    unfold apply_calls, apply_mcalls in *. cbn [fold_left]. rewrite nth_error_map.
+    destruct (nth_error cs i) as [m|]; cbn [option_map]; [rewrite commit_to_call|]; apply IH.
+  Qed.
+
+  Theorem no_lost_update_mut (cs : list mcall) w0 sched :
+    all_done (run_sched (init w0 (map tc cs)) sched) = true ->
+    exists order, Permutation order (seq 0 (length cs)) /\
+                  fst (run_sched (init w0 (map tc cs)) sched) = apply_mcalls cs order w0.
+  Proof.
+    intros Hd. destruct (no_lost_update_lin _ (to_call_linearisable cs) w0 sched Hd) as [order [P E]].
+    exists order. rewrite map_length in P. split; [exact P|]. rewrite E. apply apply_calls_to_call.
+  Qed.
+
+  Theorem set_bit_survives_mut (cs : list mcall) w0 sched k :
+    all_done (run_sched (init w0 (map tc cs)) sched) = true ->
+    0 <= k < 16 ->
+    (exists c, In c cs /\ sets_bit k c = true) -> (forall c, In c cs -> clears_bit k c = false) ->
+    Z.testbit (fst (run_sched (init w0 (map tc cs)) sched)) k = true.
+  Proof.
+    intros Hd Hk [c [Hc Hs]] Hn. destruct (no_lost_update_mut cs w0 sched Hd) as [order [P ->]].
+    apply apply_mcalls_bit_set; [exact Hk|exact Hn|]. right.
+    destruct (in_order_of_perm cs order c P Hc) as [i [Hi Hnth]]. exists i, c. auto.
+  Qed.
+
+  Theorem cleared_bit_stays_clear_mut (cs : list mcall) w0 sched k :
+    all_done (run_sched (init w0 (map tc cs)) sched) = true ->
+    0 <= k < 16 ->
+    (exists c, In c cs /\ clears_bit k c = true) -> (forall c, In c cs -> sets_bit k c = false) ->
+    Z.testbit (fst (run_sched (init w0 (map tc cs)) sched)) k = false.
+  Proof.
+    intros Hd Hk [c [Hc Hs]] Hn. destruct (no_lost_update_mut cs w0 sched Hd) as [order [P ->]].
+    apply apply_mcalls_bit_clear; [exact Hk|exact Hn|]. right.
+    destruct (in_order_of_perm cs order c P Hc) as [i [Hi Hnth]]. exists i, c. auto.
+  Qed.
+
+  (* the two halves stay independent under concurrency: the flag half is what the flag calls alone
+     give in the linearisation order, the group half is the argument of the SetLast linearised last *)
+  Theorem halves_independent_mut (cs : list mcall) w0 sched :
+    all_done (run_sched (init w0 (map tc cs)) sched) = true ->
+    (forall c, In c cs -> arg_in_half c) ->
+    exists order, Permutation order (seq 0 (length cs)) /\
+      st_flags (fst (run_sched (init w0 (map tc cs)) sched)) = st_flags (apply_flag_calls cs order w0) /\
+      st_last (fst (run_sched (init w0 (map tc cs)) sched)) = last_group cs order (st_last w0).
+  Proof.
+    intros Hd Hh. destruct (no_lost_update_mut cs w0 sched Hd) as [order [P ->]].
+    exists order. split; [exact P|]. split.
+    - apply apply_mcalls_flags. reflexivity.
+    - apply apply_mcalls_last. exact Hh.
+  Qed.
+
+  Theorem flag_calls_keep_group_mut (cs : list mcall) w0 sched :
+    all_done (run_sched (init w0 (map tc cs)) sched) = true ->
+    (forall c, In c cs -> arg_in_half c) -> (forall c, In c cs -> is_flag_call c = true) ->
+    st_last (fst (run_sched (init w0 (map tc cs)) sched)) = st_last w0.
+  Proof.
+    intros Hd Hh Hf. destruct (halves_independent_mut cs w0 sched Hd Hh) as (order & _ & _ & ->).
+    apply last_group_no_setlast. exact Hf.
+  Qed.
+
+  Theorem setlast_calls_keep_flags_mut (cs : list mcall) w0 sched :
+    all_done (run_sched (init w0 (map tc cs)) sched) = true ->
+    (forall c, In c cs -> is_flag_call c = false) ->
+    st_flags (fst (run_sched (init w0 (map tc cs)) sched)) = st_flags w0.
+  Proof.
+    intros Hd Hf. destruct (no_lost_update_mut cs w0 sched Hd) as [order [P ->]].
+    rewrite (apply_mcalls_flags cs order w0 w0 eq_refl). rewrite apply_flag_calls_no_flag_call by exact Hf.
+    reflexivity.
+  Qed.
+
+  (* the word stays a 32-bit word *)
+  Theorem word_ok_mut (cs : list mcall) w0 sched :
+    all_done (run_sched (init w0 (map tc cs)) sched) = true ->
+    word_ok w0 -> (forall c, In c cs -> match c with MSet v => word_ok v | _ => True end) ->
+    word_ok (fst (run_sched (init w0 (map tc cs)) sched)).
+  Proof.
+    intros Hd Hw Ha. destruct (no_lost_update_mut cs w0 sched Hd) as [order [_ ->]].
+    clear Hd. revert w0 Hw. induction order as [|i order IH]; intros w Hw; [exact Hw|].
+    rewrite apply_mcalls_cons. apply IH. destruct (nth_error cs i) as [c|] eqn:Hc; [|exact Hw].
+    specialize (Ha _ (nth_error_In _ _ Hc)). destruct c; cbn [mcall_fn].
+    - apply set_word_ok; assumption.
+    - apply unset_word_ok; assumption.
+    - apply setlast_word_ok.
+  Qed.
+End Mutators.
+
+(* ---- regression: the load-then-store shape of the pinned tree ------------------------- *)
+(* what atomics2v read from c2/state.go before the repair (`fix:` commit recorded in
+   known_findings.d/C13.json): Set/Unset/SetLast were an atomic load followed by an atomic store.
+   Kept here as a copy so that the refutation stays checked. *)
+Section Regress.
+  Definition old_set : mutator := Mutator LoadStore [ALoad; AStore (EOr ECur EArg)].
+  Definition old_unset : mutator := Mutator LoadStore [ALoad; AStore (EAndNot ECur EArg)].
+  Definition old_setlast : mutator :=
+    Mutator LoadStore [ALoad; AStore (EOr (EU32 (EShl (EU32 EArg) 16)) (EU32 (EU16 ECur)))].
+  Definition old_call : mcall -> call := to_call old_set old_unset old_setlast.
+
+  Lemma old_not_linearisable :
+    linearisable old_set = false /\ linearisable old_unset = false /\ linearisable old_setlast = false.
+  Proof. repeat split. Qed.
+
+  (* run alone, the old methods computed the right thing (the sequential model) *)
+  Lemma old_sequential_meaning w v :
+    seq_fn old_set v w = st_set w v /\ seq_fn old_unset v w = st_unset w v /\ seq_fn old_setlast v w = st_setlast w v.
+  Proof. repeat split. Qed.
+
+  Lemma perm2 (order : list nat) : Permutation order [0%nat; 1%nat] -> order = [0%nat; 1%nat] \/ order = [1%nat; 0%nat].
+  Proof. intros P. apply Permutation_sym in P. exact (Permutation_length_2_inv P). Qed.
+
+  (* [T0.load; T1.load; T1.store; T0.store]: Set(1) and Set(2) on the word 0 leave 1.  Both calls
+     returned, the word is the result of NO order of the two calls, and the flag 2, set by one call
+     and cleared by none, is not set. *)
+  Lemma lost_update_refuted :
+    exists (cs : list mcall) (w0 : Z) (sched : list nat),
+      let cf := run_sched (init w0 (map old_call cs)) sched in
+      all_done cf = true /\
+      (forall order, Permutation order (seq 0 (length cs)) -> fst cf <> apply_mcalls cs order w0) /\
+      exists k c, 0 <= k < 16 /\ In c cs /\ sets_bit k c = true /\
+                  (forall c', In c' cs -> clears_bit k c' = false) /\ Z.testbit (fst cf) k = false.
+  Proof.
+    exists [MSet 1; MSet 2], 0, [0; 1; 1; 0]%nat. cbv zeta.
+    split; [vm_compute; reflexivity|]. split.
+    - intros order P. destruct (perm2 order P) as [-> | ->]; vm_compute; discriminate.
+    - exists 1, (MSet 2). split; [lia|]. split; [right; left; reflexivity|]. split; [reflexivity|].
+      split; [|vm_compute; reflexivity].
+      intros c' [<-|[<-|[]]]; reflexivity.
+  Qed.
+
+  (* the same schedule with SetLast(7) against Set(1): the group call wipes out the flag, i.e.
+     under concurrency updating one half altered the other *)
+  Lemma lost_update_refuted_setlast :
+    exists (cs : list mcall) (w0 : Z) (sched : list nat),
+      let cf := run_sched (init w0 (map old_call cs)) sched in
+      all_done cf = true /\ (forall c, In c cs -> arg_in_half c) /\
+      (forall order, Permutation order (seq 0 (length cs)) ->
+                     st_flags (fst cf) <> st_flags (apply_flag_calls cs order w0)).
+  Proof.
+    exists [MSetLast 7; MSet 1], 0, [0; 1; 1; 0]%nat. cbv zeta.
+    split; [vm_compute; reflexivity|]. split.
+    - intros c [<-|[<-|[]]]; cbn [arg_in_half]; unfold half_ok; lia.
+    - intros order P. destruct (perm2 order P) as [-> | ->]; vm_compute; discriminate.
+  Qed.
+
+  (* the witness schedule the check evaluates on the generated shapes when they are not
+     linearisable (tools/propcfg/c13.py): on the old shapes it loses the update *)
+  Lemma old_witness_loses :
+    wr_lost (lost_update_witness (old_call (MSet 1)) (old_call (MSet 2)) 0) = true /\
+    wr_lost (lost_update_witness (old_call (MSet 1)) (old_call (MUnset 2)) 2) = true /\
+    wr_lost (lost_update_witness (old_call (MSetLast 7)) (old_call (MSet 1)) 0) = true.
+  Proof. repeat split. Qed.
+End Regress.
+
+(* ---- the shapes translated from the CURRENT c2/state.go -------------------------------- *)
+(* Gen/StateAtomics.v is rewritten by tools/atomics2v on every run.  Everything below is about
+   those generated terms: if Set/Unset/SetLast stop being linearisable (or stop computing
+   Set/Unset/SetLast of Model/State.v at their commit point) this part no longer compiles. *)
+Definition gen_call : mcall -> call := to_call gen_set gen_unset gen_setlast.
+
+Lemma gen_linearisable :
+  linearisable gen_set = true /\ linearisable gen_unset = true /\ linearisable gen_setlast = true.
+Proof. repeat split. Qed.
+
+Lemma gen_set_commit w v : commit_fn gen_set v w = st_set w v.
+Proof. unfold gen_set, commit_fn, st_set; cbn [m_ops eval]; first [reflexivity | apply Z.lor_comm]. Qed.
+Lemma gen_unset_commit w v : commit_fn gen_unset v w = st_unset w v.
+Proof. reflexivity. Qed.
+Lemma gen_setlast_commit w g : commit_fn gen_setlast g w = st_setlast w g.
+Proof. unfold gen_setlast, commit_fn, st_setlast; cbn [m_ops eval]; first [reflexivity | apply Z.lor_comm]. Qed.
+
+(* the constants of the model are the constants of the code *)
+Lemma gen_state_bits_agree : gen_state_bits = state_bits.
+Proof. reflexivity. Qed.
+
+(* the argument widths the translator read from the signatures *)
+Lemma gen_argbits : gen_set_argbits = 32 /\ gen_unset_argbits = 32 /\ gen_setlast_argbits = 16.
+Proof. repeat split. Qed.
+
+Lemma gen_witness_keeps :
+  wr_lost (lost_update_witness (gen_call (MSet 1)) (gen_call (MSet 2)) 0) = false /\
+  wr_lost (lost_update_witness (gen_call (MSet 1)) (gen_call (MUnset 2)) 2) = false /\
+  wr_lost (lost_update_witness (gen_call (MSetLast 7)) (gen_call (MSet 1)) 0) = false.
+Proof. repeat split. Qed.
+
+Definition gen_L1 := proj1 gen_linearisable.
+Definition gen_L2 := proj1 (proj2 gen_linearisable).
+Definition gen_L3 := proj2 (proj2 gen_linearisable).
+
+Theorem no_lost_update (cs : list mcall) w0 sched :
+  all_done (run_sched (init w0 (map gen_call cs)) sched) = true ->
+  exists order, Permutation order (seq 0 (length cs)) /\
+                fst (run_sched (init w0 (map gen_call cs)) sched) = apply_mcalls cs order w0.
+Proof.
+  exact (no_lost_update_mut _ _ _ gen_L1 gen_L2 gen_L3 gen_set_commit gen_unset_commit gen_setlast_commit cs w0 sched).
+Qed.
+
+(* also at every intermediate point of every schedule: the word is the result of the calls that
+   have returned (and of no other), in the order of their commit points *)
+Theorem no_partial_update (cs : list mcall) w0 sched :
+  exists lin, NoDup lin /\
+    fst (run_sched (init w0 (map gen_call cs)) sched) = apply_mcalls cs lin w0 /\
+    forall i t, nth_error (snd (run_sched (init w0 (map gen_call cs)) sched)) i = Some t -> finished t = inb i lin.
+Proof.
+  destruct (word_is_committed_calls _ (to_call_linearisable _ _ _ gen_L1 gen_L2 gen_L3 cs) w0 sched)
+    as (lin & Hnd & Hw & Hf).
+  exists lin. split; [exact Hnd|]. split; [|exact Hf].
+  rewrite Hw. exact (apply_calls_to_call _ _ _ gen_set_commit gen_unset_commit gen_setlast_commit cs lin w0).
+Qed.
+
+Theorem complete_schedule_exists (cs : list mcall) w0 :
+  all_done (run_sched (init w0 (map gen_call cs)) (serial_sched (length cs))) = true.
+Proof.
+  pose proof (serial_completes (map gen_call cs) w0 (to_call_linearisable _ _ _ gen_L1 gen_L2 gen_L3 cs)) as H.
+  rewrite map_length in H. exact H.
+Qed.
+
+Definition set_bit_survives :=
+  set_bit_survives_mut _ _ _ gen_L1 gen_L2 gen_L3 gen_set_commit gen_unset_commit gen_setlast_commit.
+Definition cleared_bit_stays_clear :=
+  cleared_bit_stays_clear_mut _ _ _ gen_L1 gen_L2 gen_L3 gen_set_commit gen_unset_commit gen_setlast_commit.
+Definition halves_independent_concurrently :=
+  halves_independent_mut _ _ _ gen_L1 gen_L2 gen_L3 gen_set_commit gen_unset_commit gen_setlast_commit.
+Definition flag_calls_keep_group :=
+  flag_calls_keep_group_mut _ _ _ gen_L1 gen_L2 gen_L3 gen_set_commit gen_unset_commit gen_setlast_commit.
+Definition setlast_calls_keep_flags :=
+  setlast_calls_keep_flags_mut _ _ _ gen_L1 gen_L2 gen_L3 gen_set_commit gen_unset_commit gen_setlast_commit.
+Definition concurrent_word_ok :=
+  word_ok_mut _ _ _ gen_L1 gen_L2 gen_L3 gen_set_commit gen_unset_commit gen_setlast_commit.
